@@ -1349,13 +1349,14 @@ def _inline(te: "TermEval", func: FuncInfo, depth: int, stack: tuple, stop) -> S
     base = te.summary(func)
     out = Summary(func)
     out.calls, out.props = dict(base.calls), dict(base.props)
+    out.precise = set(base.precise)
     out.falls_through, out.fall_pc, out.final_env = base.falls_through, base.fall_pc, base.final_env
     memo: dict = {}
 
     def callee_of(c):
         tg = base.calls.get(c) or out.calls.get(c)
-        if not tg or len(tg) != 1:
-            return None
+        if not tg or len(tg) != 1 or c not in out.precise:
+            return None   # only callees resolved by type inference are looked through (never by-name guesses)
         f = tg[0]
         if f in stack or f is func or f.is_generator() or not isinstance(f.node, ast.FunctionDef):
             return None
@@ -1373,6 +1374,8 @@ def _inline(te: "TermEval", func: FuncInfo, depth: int, stack: tuple, stop) -> S
             x = map_children(orig, f)
             if x is not orig and orig[0] == "call" and orig in base.calls:
                 out.calls.setdefault(x, base.calls[orig])
+                if orig in out.precise:
+                    out.precise.add(x)
             if orig[0] == "attr" and orig in base.props:
                 out.props.setdefault(x, base.props[orig])
                 getters = base.props[orig]
@@ -1388,7 +1391,10 @@ def _inline(te: "TermEval", func: FuncInfo, depth: int, stack: tuple, stop) -> S
                         for ce in gs.effects:
                             sink.append(_subst_effect(ce, amap, pc, ctx))
                         for k, v in gs.calls.items():
-                            out.calls.setdefault(substitute(k, amap), v)
+                            k2 = substitute(k, amap)
+                            out.calls.setdefault(k2, v)
+                            if k in gs.precise:
+                                out.precise.add(k2)
                         for k, v in gs.props.items():
                             out.props.setdefault(substitute(k, amap), v)
                         return substitute(gs.return_term(), amap)
@@ -1409,7 +1415,10 @@ def _inline(te: "TermEval", func: FuncInfo, depth: int, stack: tuple, stop) -> S
             for ce in cs.effects:
                 sink.append(_subst_effect(ce, amap, pc, ctx))
             for k, v in cs.calls.items():
-                out.calls.setdefault(substitute(k, amap), v)
+                k2 = substitute(k, amap)
+                out.calls.setdefault(k2, v)
+                if k in cs.precise:
+                    out.precise.add(k2)
             for k, v in cs.props.items():
                 out.props.setdefault(substitute(k, amap), v)
             for rpc, rt, rn in cs.raises:
@@ -1450,7 +1459,7 @@ def _inline(te: "TermEval", func: FuncInfo, depth: int, stack: tuple, stop) -> S
     # conditions in place of the loop over the generator call
     def gen_of(it):
         tg = base.calls.get(it) or out.calls.get(it)
-        if it[0] != "call" or not tg or len(tg) != 1:
+        if it[0] != "call" or not tg or len(tg) != 1 or it not in out.precise:
             return None
         g = tg[0]
         if not g.is_generator() or g in stack or g is func or depth <= 0:
